@@ -18,11 +18,16 @@ def run_shell(case):
         cmd = ['/venv/bin/python', '-m', 'yalafi.shell', '--no-config', '--lt-command',
                '/venv/bin/python %s %s' % (os.path.join(HERE, 'fake_lt.py'), spec)] + list(case.get('args', [])) + list(case['main'])
         env = dict(os.environ, PYTHONPATH=impl.REPO, PYTHONHASHSEED=str(case.get('hashseed', 0)), PYTHONIOENCODING='utf-8')
-        try:
-            p = subprocess.run(cmd, cwd=d, env=env, stdout=subprocess.PIPE, stderr=subprocess.PIPE, timeout=case.get('timeout', 60))
-            rc, out, err = p.returncode, p.stdout.decode('utf-8', 'replace'), p.stderr.decode('utf-8', 'replace')
-        except subprocess.TimeoutExpired:
-            rc, out, err = -9, '', 'TIMEOUT'
+        rc, out, err = -9, '', 'TIMEOUT'
+        for limit in (case.get('timeout', 60), 240):       # a second, generous try: a busy machine must not look like a hang
+            try:
+                if os.path.exists(spec + '.log'):
+                    os.remove(spec + '.log')
+                p = subprocess.run(cmd, cwd=d, env=env, stdout=subprocess.PIPE, stderr=subprocess.PIPE, timeout=limit)
+                rc, out, err = p.returncode, p.stdout.decode('utf-8', 'replace'), p.stderr.decode('utf-8', 'replace')
+                break
+            except subprocess.TimeoutExpired:
+                pass
         log = []
         if os.path.exists(spec + '.log'):
             log = [json.loads(l) for l in open(spec + '.log', encoding='utf-8')]
